@@ -255,6 +255,8 @@ pub trait Coll<P: PT>: Clone + Default {
     fn clone_check(&self, fresh: &P) -> Value;
     /// C19: [collect(iter()) == self, collecting twice gives the same shape]
     fn collect_check(&self, ctx: &Ctx) -> Value;
+    /// Default iterators, Debug, view clones, IntoIterator of views
+    fn misc_check(&self, ctx: &Ctx) -> Value;
     /// C19: serialize + deserialize gives an equal map (None: not available for this collection)
     fn serde_check(&self) -> Option<Value> {
         None
@@ -339,6 +341,21 @@ impl<P: PT> Coll<P> for PrefixMap<P, i32> {
     }
     fn as_map(&mut self) -> Option<&mut PrefixMap<P, i32>> {
         Some(self)
+    }
+    fn misc_check(&self, ctx: &Ctx) -> Value {
+        let d1 = prefix_trie::map::Iter::<P, i32>::default().next().is_none()
+            && prefix_trie::map::IterMut::<P, i32>::default().next().is_none();
+        let dbg = format!("{:?}", self);
+        let d2 = self.iter().all(|(p, _)| dbg.contains(&format!("{:?}", p)));
+        let v = self.view();
+        let val = |x: &i32| *x;
+        let a = crate::views::short(ctx, &v, &val);
+        let b = crate::views::short(ctx, &v.clone().view(), &val);
+        let vd = format!("{:?}", v);
+        let d3 = a == b && !vd.is_empty();
+        let it1: Vec<(P, i32)> = v.clone().into_iter().take(LIM).map(|(p, x)| (p.clone(), *x)).collect();
+        let it2: Vec<(P, i32)> = v.iter().take(LIM).map(|(p, x)| (p.clone(), *x)).collect();
+        json!([d1 as i32, d2 as i32, d3 as i32, (it1 == it2) as i32])
     }
     fn clone_check(&self, fresh: &P) -> Value {
         let before = self.entries();
@@ -581,6 +598,19 @@ impl<P: PT> Coll<P> for PrefixSet<P> {
     }
     fn snap(&self) -> VerifSnapshot {
         self.verif_snapshot()
+    }
+    fn misc_check(&self, ctx: &Ctx) -> Value {
+        let d1 = true;
+        let dbg = format!("{:?}", self);
+        let d2 = self.iter().all(|p| dbg.contains(&format!("{:?}", p)));
+        let v = self.view();
+        let val = |_: &()| 1;
+        let a = crate::views::short(ctx, &v, &val);
+        let b = crate::views::short(ctx, &v.clone().view(), &val);
+        let d3 = a == b;
+        let it1: Vec<P> = v.clone().into_iter().take(LIM).map(|(p, _)| p.clone()).collect();
+        let it2: Vec<P> = v.keys().take(LIM).cloned().collect();
+        json!([d1 as i32, d2 as i32, d3 as i32, (it1 == it2) as i32])
     }
     fn clone_check(&self, fresh: &P) -> Value {
         let before = self.entries();
@@ -1107,6 +1137,7 @@ fn apply_inner<P: PT, C: Coll<P>>(c: &mut C, ev: &Value, ctx: &Ctx) -> Option<Ou
             guarded(|| c.clone_check(&fresh))
         }
         "Collect" => guarded(|| c.collect_check(ctx)),
+        "Misc" => guarded(|| c.misc_check(ctx)),
         "Serde" => {
             let r = guarded(|| c.serde_check().unwrap_or(json!(["NA"])));
             if r.ret == json!(["NA"]) {
